@@ -82,7 +82,7 @@ impl Monitor for C10 {
         "C10"
     }
     fn rule(&self) -> String {
-        "cases = seeded universes (with and without hints, soft lists) solved under the manual single-thread executor: every provider future parks and exactly one is released per step, chosen by policy (seeded random x4, oldest, newest, candidates-first, dependencies-first); pauses at get_candidates / get_dependencies and, per case, also filter_candidates / sort_candidates. Oracle per run: no deadlock (solver pending with nothing parked), no panic, verdict == synchronous verdict, solution valid (reference + hook invariants), no repeated get_candidates(name) / get_dependencies(solvable). For tiny universes the complete schedule tree is enumerated (exhaustive subset, counted separately). distinct = content hash; non-trivial = distinct case with >= 2 futures parked simultaneously at some quiescent point".into()
+        "cases = seeded universes (with and without hints, soft lists) solved under the manual single-thread executor: every provider future parks and exactly one is released per step, chosen by policy (seeded random x4, oldest, newest, candidates-first, dependencies-first); a third of the cases is additionally run with helper THREADS completing the provider futures after random delays, so that wakers fire from other threads while the solver thread polls or is parked; pauses at get_candidates / get_dependencies and, per case, also filter_candidates / sort_candidates. Oracle per run: no deadlock (solver pending with nothing parked), no panic, verdict == synchronous verdict, solution valid (reference + hook invariants), no repeated get_candidates(name) / get_dependencies(solvable). For tiny universes the complete schedule tree is enumerated (exhaustive subset, counted separately). distinct = content hash; non-trivial = distinct case with >= 2 futures parked simultaneously at some quiescent point".into()
     }
     fn cases(&self, tier: Tier) -> u64 {
         tier.pick(42_000, 840_000)
@@ -102,6 +102,10 @@ impl Monitor for C10 {
         let mut policies = vec![Policy::Oldest, Policy::Newest, Policy::CandsFirst, Policy::DepsFirst];
         for _ in 0..4 {
             policies.push(Policy::Random(r.next()));
+        }
+        // one run in which helper threads complete the provider futures (cross-thread wake-ups)
+        if r.chance(1, 3) {
+            policies.push(Policy::Threads(r.next()));
         }
         C10Case { family: name.into(), u, p, pause_mask: random_pause_mask(r), policies, exhaustive, activity: if r.chance(1, 4) { Some(gener::activity_params(r)) } else { None } }
     }
@@ -123,6 +127,10 @@ impl Monitor for C10 {
             let (sess, out) = solve_once(&u, &c.p, &opts);
             note_outcome(ctx.rep, &out);
             let what = format!("policy {:?} pause_mask {}", policy, c.pause_mask);
+            if matches!(policy, Policy::Threads(_)) {
+                ctx.rep.count("runs-completed-by-helper-threads");
+                ctx.rep.add("cross-thread-wakeups", sess.prov().sched.thread_wakes.get());
+            }
             judge_async(&u, &rf, &c.p, sync_verdict, &sess, &out, ctx, &what);
             let log = sess.log();
             let mut maxp = 0;
